@@ -1,5 +1,5 @@
 //@ tu: common/common_ctl.c libxcmctl/xcmc.c
-//@ loops: utilctl.loops
+//@ loops: ../harness/utilctl/xcmc.loops
 //@ defs: -DUT_STD_ASSERT -DXVU_PARSE_ASSUMED
 //@ enforce: xcmc_list
 //@ replace: xvu_list_cb ctl_parse_info
